@@ -203,9 +203,9 @@ func (stb *StarTreeBuilder) ResetSegTree(groupByKeys []string,
 	}
 
 	for colNum := uint16(0); colNum < numGroupByCols; colNum++ {
-		if stb.segDictEncRev[colNum] == nil {
-			stb.segDictEncRev[colNum] = stbDictEncWorkBuf[colNum]
-		}
+		// The builder comes from a pool: it must not keep using the work buffer of the
+		// segstore (possibly of another index) that had it before.
+		stb.segDictEncRev[colNum] = stbDictEncWorkBuf[colNum]
 		if stb.segDictMap[colNum] == nil {
 			stb.segDictMap[colNum] = make(map[string]uint32)
 		}
